@@ -168,7 +168,13 @@ func (ex *Exec) unop(fr *frame, in *ssa.UnOp) Value {
 	x := ex.get(fr, in.X)
 	switch in.Op {
 	case token.MUL: // load
-		return ex.load(x.(*Ptr))
+		p := x.(*Ptr)
+		if ex.watchObj != nil && ex.watchOn && ex.watchReads && p.Obj != nil && len(p.Path) > 0 {
+			if g := ex.watchObj[p.Obj]; g != nil && p.Obj.T != nil && ex.P.mutableField(p.Obj.T, p.Path[0]) {
+				ex.guard(g, false, p.Obj.Label+" (read of a field that is written somewhere)")
+			}
+		}
+		return ex.load(p)
 	case token.NOT:
 		return ex.B.Not(x.(*Term))
 	case token.SUB:
